@@ -55,9 +55,9 @@ class ChoiceRecorder:
 
 # ---- generators -------------------------------------------------------------------------------
 
-def skeleton(rng):
+def skeleton(rng, kind=None):
     """canonical list of cells with pairwise distinct coordinates (values are replaced later)"""
-    kind = rng.choice(["C", "U", "I"])
+    kind = kind or rng.choice(["C", "U", "I"])
     cells = gen.rand_cells(rng, n_slices=rng.choice([1, 1, 2, 3]),
                            layout=rng.choice(["regular", "regular", "ragged", "daily"]),
                            kind=kind, vkind="int", max_cells=rng.choice([1, 2, 4, 7, 10]))
@@ -208,26 +208,26 @@ def build(kind, skel, vals):
     return cells
 
 
-REFUSALS = ["len", "kind", "coord-date", "coord-meta", "fields", "scalar-unequal", "type-mixed",
+REFUSALS = ["len", "kind", "coord-date", "coord-meta", "coord-prev", "coord-prev", "fields", "scalar-unequal", "type-mixed",
             "type-intfloat", "wlen", "dictcols", "dictragged", "dictempty", "sum", "neg",
             "single-half", "tuple", "method", "none-value", "arrlen", "notlist"]
 # refusals the property itself names: the call must raise
-NAMED = {"len", "kind", "coord-date", "coord-meta", "scalar-unequal"}
+NAMED = {"len", "kind", "coord-date", "coord-meta", "coord-prev", "scalar-unequal"}
 
 
 def one_case(rng, stream):
     """returns dict(tris=[list of cells], weights, method, seed, flags...)"""
-    kind, skel = skeleton(rng)
+    refusal = rng.choice(REFUSALS) if stream == "refusal" else None
+    # coord-prev: INCREMENTAL triangles that differ only in one cell's prev_evaluation_date
+    kind, skel = skeleton(rng, "I" if refusal == "coord-prev" else None)
     M = rng.choice([1, 2, 2, 3, 4])
     method = rng.choice(["linear", "mixture"])
-    refusal = None
     if stream == "single-dict":                       # D17 (fixed): one triangle, dict weights
         M = 1
     if stream == "refusal":
-        refusal = rng.choice(REFUSALS)
         if refusal in ("scalar-unequal", "type-mixed", "type-intfloat", "sum", "neg"):
             method = "mixture"
-        if refusal in ("len", "kind", "coord-date", "coord-meta", "fields", "scalar-unequal", "type-mixed",
+        if refusal in ("len", "kind", "coord-date", "coord-meta", "coord-prev", "fields", "scalar-unequal", "type-mixed",
                        "type-intfloat", "arrlen", "wlen"):
             M = max(M, 2)
         if refusal == "single-half":
@@ -275,6 +275,14 @@ def one_case(rng, stream):
             tris[j][i] = c.replace(evaluation_date=c.evaluation_date + datetime.timedelta(days=rng.choice([1, 31, 400])))
         else:
             tris[j][i] = c.derive_metadata(zz_blend="other")
+    elif refusal == "coord-prev":
+        # same length, same slices, periods and evaluation dates; one increment starts earlier
+        j, i = rng.randrange(1, M), rng.randrange(n)
+        if rng.random() < 0.3:
+            j = 0                                      # the odd one may also be the FIRST triangle
+        c = tris[j][i]
+        newprev = c.prev_evaluation_date - datetime.timedelta(days=rng.choice([1, 30, 183, 365]))
+        tris[j][i] = IncrementalCell(c.period_start, c.period_end, newprev, c.evaluation_date, c.values, c.metadata)
     elif refusal == "fields":
         j, i = rng.randrange(M), rng.randrange(n)
         c = tris[j][i]
